@@ -60,7 +60,7 @@ fn hist<W: WorldDriver>(m: &HashMap<String, String>) -> i32 {
     let len: usize = m.get("len").map(|s| s.parse().unwrap()).unwrap_or(120);
     let seed: u64 = m.get("seed").map(|s| s.parse().unwrap()).unwrap_or(1);
     let cfg = Cfg::new(intensity(m.get("intensity")));
-    let res = search::<W>(&spec, &cfg, cases, len, seed, m.contains_key("traces"));
+    let res = search::<W>(&spec, &cfg, cases, len, seed, m.contains_key("traces"), m.get("last-case").map(|s| s.as_str()));
     if let Some(out) = m.get("out") {
         std::fs::write(out, res.stats.to_json()).expect("write stats");
     }
